@@ -1163,6 +1163,7 @@ class SimExecutor:
         self.idle = 0
         self.nthreads = 0
         self._shutdown = False
+        self._lock_owner = None
         self.proc = p
         p.atexit.append(self._at_exit)
 
@@ -1171,15 +1172,22 @@ class SimExecutor:
 
     def submit(self, fn, *args, **kwargs):
         s, t, p = ctx()
-        if self._shutdown:
-            raise RuntimeError("cannot schedule new futures after shutdown")
-        f = SimFuture()
-        self.queue.append((f, fn, args, kwargs))
-        if self.idle == 0 and self.nthreads < self.max_workers:
-            self.nthreads += 1
-            s.new_task(p, self._worker, "%s.pool%d" % (p.name, self.nthreads), False)
-        s.ev(p.name, "submit", len(self.queue))
-        s.tick()
+        # ThreadPoolExecutor.submit() runs under the executor's (non-reentrant) _shutdown_lock; shutdown() takes the same lock
+        if self._lock_owner is not None and self._lock_owner is not t:
+            s.block(lambda: self._lock_owner is None, None, False, False)
+        self._lock_owner = t
+        try:
+            if self._shutdown:
+                raise RuntimeError("cannot schedule new futures after shutdown")
+            f = SimFuture()
+            self.queue.append((f, fn, args, kwargs))
+            if self.idle == 0 and self.nthreads < self.max_workers:
+                self.nthreads += 1
+                s.new_task(p, self._worker, "%s.pool%d" % (p.name, self.nthreads), False)
+            s.ev(p.name, "submit", len(self.queue))
+            s.tick()                  # a signal handler may run here, inside the locked region
+        finally:
+            self._lock_owner = None
         return f
 
     def _worker(self):
@@ -1209,6 +1217,14 @@ class SimExecutor:
 
     def shutdown(self, wait=True, cancel_futures=False):
         s, t, p = ctx()
+        if self._lock_owner is t:
+            # called from a signal handler that interrupted submit() in the same thread: the lock is not reentrant - the thread waits
+            # for itself, for ever
+            s.probe("executor_shutdown_deadlock")
+            s.ev(p.name, "executor-deadlock", None)
+            s.block(lambda: False, None, False, False)
+        elif self._lock_owner is not None:
+            s.block(lambda: self._lock_owner is None, None, False, False)
         self._shutdown = True
         if cancel_futures:
             while self.queue:
